@@ -28,7 +28,7 @@ def in_carrier(e):
 def judge_events(out, events, prop, sig_of):
     for i, e in enumerate(events):
         e["id"] = i + 1
-    jr = judge.judge_parallel(events, procs=12, chunk=max(500, len(events) // 12 + 1))
+    jr = judge.judge_parallel(events, procs=16, chunk=max(25, len(events) // 16 + 1))
     if jr.error:
         out.machinery.append({"clause": "judge", "detail": jr.error})
     n_ok = n_bad = n_undef = 0
